@@ -122,6 +122,9 @@ class Rig:
                 self.recv(it[1], it[2])
             elif it[0] == "qown":
                 self.snap(event.is_cancelled)
+            elif it[0] == "other-assoc":
+                # a complete operation on ANOTHER association of the same process, while this one is in progress
+                it[1].op(it[2], it[3], [["qown"]], "ok")
             else:
                 self.snap(event._is_cancelled(it[1]))
         if event.event is self.evt.EVT_C_MOVE:
@@ -398,6 +401,30 @@ def non_qr_event_check(ctx):
                  ["non-qr-event", 9])
 
 
+def cross_association_check(ctx):
+    """Message IDs are per association: a C-CANCEL received on one association must neither be reported to an
+    operation of ANOTHER association that happens to use the same message ID, nor be lost because another association
+    starts or finishes an operation.  Two real associations in one process; while A's operation is in progress its
+    C-CANCEL arrives, then B runs a whole operation with the same message ID, then A asks."""
+    for kind_a in ("find", "get", "move"):
+        for kind_b in ("find", "get"):
+            for mid in (1, 7, 65535):
+                a, b = Rig(), Rig()
+                a.op(kind_a, mid, [["recv", mid, 16382], ["other-assoc", b, kind_b, mid], ["qown"]], "ok")
+                case = ["cross-association", kind_a, kind_b, mid]
+                ctx.case(case, nontrivial=True, kind=f"cross-association:{kind_a}/{kind_b}")
+                b_answers = [t[2] for t in b.trace if t[2] is not None]
+                a_answers = [t[2] for t in a.trace if t[2] is not None]
+                if any(b_answers):
+                    ctx.fail("cancel:reported-to-another-association",
+                             f"a C-CANCEL for message {mid} received on association A was reported to the {kind_b} operation "
+                             f"with message ID {mid} on association B", case)
+                if a_answers != [True]:
+                    ctx.fail("cancel:lost-through-another-association",
+                             f"association A's own C-CANCEL for its {kind_a} operation {mid} was no longer there after association B "
+                             f"ran an operation (answers {a_answers})", case)
+
+
 def run(ctx):
     import logging
 
@@ -422,6 +449,7 @@ def run(ctx):
     ctx.hist[f"exhaustive-inner<={depth}"] += len(ex)
     ctx.extra["exhaustive_small_scope"] = {"inner_depth": depth, "cases": len(ex)}
     non_qr_event_check(ctx)
+    cross_association_check(ctx)
     try:
         e2e(ctx)
     except Exception as exc:  # a scenario that cannot be driven to its end is a broken correspondence
@@ -441,7 +469,18 @@ def search(ctx):
     check_cases(ctx, [gen_case(rng) for _ in range(5000)], count=False)
 
 
+def _replay_cross(c):
+    a, b = Rig(), Rig()
+    a.op(c[1], c[3], [["recv", c[3], 16382], ["other-assoc", b, c[2], c[3]], ["qown"]], "ok")
+    ba = [t[2] for t in b.trace if t[2] is not None]
+    aa = [t[2] for t in a.trace if t[2] is not None]
+    print("association B's operation was told 'cancelled':", ba, " association A's own query:", aa)
+    return 1 if any(ba) or aa != [True] else 0
+
+
 def replay(ctx, case):
+    if case["case"][0] == "cross-association":
+        return _replay_cross(case["case"])
     import logging
 
     logging.getLogger("pynetdicom").setLevel(logging.CRITICAL)
